@@ -4,6 +4,7 @@ import (
 	"fmt"
 	"math"
 	"reflect"
+	"sort"
 	"strconv"
 
 	at "github.com/DanielSvub/anytype"
@@ -151,6 +152,9 @@ func runC13(c *fw.Ctx) {
 		// out because it is not deep-equal to itself)
 		L(spec.FloatV(math.Inf(1)), spec.FloatV(math.Inf(-1)), O("k", spec.FloatV(math.Inf(1)), "l", L(spec.FloatV(math.Inf(-1)))), spec.FloatV(math.MaxFloat64), spec.FloatV(5e-324), spec.FloatV(math.Copysign(0, -1))),
 		O("inf", spec.FloatV(math.Inf(1)), "ninf", spec.FloatV(math.Inf(-1)), "max", spec.FloatV(-math.MaxFloat64)),
+		// tables: rows of one width, records of one shape
+		L(L(I(1), I(2), I(3)), L(I(4), I(5), I(6))), O("t", L(L(I(1), I(2)), L(I(3), I(4)), L(I(5), I(6)))), L(L(L(I(1)), L(I(2))), L(L(I(3)), L(I(4)))),
+		L(O("id", I(1), "v", spec.StrV("a")), O("id", I(2), "v", spec.StrV("b"))), L(L(spec.StrV("a")), L(spec.StrV("b")), L(spec.StrV("c"))), O("a", L(I(1), I(2)), "b", L(I(3), I(4))),
 		// strings are byte strings to the native conversions: ill-formed UTF-8 in values and keys goes through unchanged
 		L(spec.StrV("\xff"), spec.StrV("a\xc3"), spec.StrV("\xed\xa0\x80"), spec.StrV("ok\x80ok"), O("k", spec.StrV("\xfe\xff"), "\xc3", spec.StrV("v"), "l", L(spec.StrV("\xf0\x9f")))),
 		O("\xff", spec.StrV("\xff"), "plain", L(spec.StrV("\x80"), spec.StrV(""), spec.StrV("\x00"))),
@@ -536,6 +540,44 @@ func c13Case(c *fw.Ctx, r *rng.R, tree *spec.Spec) {
 		if !reflect.DeepEqual(exp, expCopy) {
 			c.Violate("export-changes-with-container", in(), "an exported native value is unaffected by later modifications of the container", fmt.Sprintf("%v", exp))
 			return
+		}
+		// 4b. the container built from native data is a tree of containers of their own: the same writes (one element / field
+		// added to every container, innermost first) on it and on a twin put together from plain constructors give the same
+		// export again
+		if tree.Size() <= 120 {
+			grown, twin := fromNative(drive.Native(tree)), drive.Build(nil, tree)
+			if r != nil && r.Bool() {
+				grown = drive.Build(r, tree)
+			}
+			var grow func(v any, depth int)
+			grow = func(v any, depth int) {
+				if depth > 40 {
+					return
+				}
+				switch x := v.(type) {
+				case at.List:
+					for i := 0; i < x.Count(); i++ {
+						grow(x.Get(i), depth+1)
+					}
+					x.Add("grown")
+				case at.Object:
+					ks := x.Keys().StringSlice()
+					sort.Strings(ks)
+					for _, k := range ks {
+						grow(x.Get(k), depth+1)
+					}
+					x.Set("grown", true)
+				}
+			}
+			if pan, msg := drive.Protect(func() { grow(grown, 0); grow(twin, 0) }); pan {
+				c.Violate("imported-container-unusable", in(), "every container of the tree takes one more element / field", "panic: "+msg)
+				return
+			}
+			if a, b := fmt.Sprintf("%v", nativeOf(grown)), fmt.Sprintf("%v", nativeOf(twin)); a != b {
+				c.Violate("imported-containers-share-storage", in(), "after the same writes the same export as a tree built from plain constructors: "+spec.Trunc(b, 500), spec.Trunc(a, 500))
+				return
+			}
+			c.Count("grown_twins_compared")
 		}
 		// 5. Dict()/Slice(): one-level snapshots holding exactly what Get returns; not aliased in either direction
 		real2 := drive.Build(r, tree)
